@@ -8,5 +8,6 @@ CONSTANTS
   NodeCounts = {1}
   SimCounts = {1}
   DefaultConc = 16
+  BaseOutcomes = {"accept", "reject", "treject", "malformed", "slowok", "late", "hang"}
 INVARIANTS Emit
 CHECK_DEADLOCK FALSE
